@@ -130,7 +130,7 @@ fn all_segment_maps(max_points: usize) -> Vec<Vec<(i16, i16)>> {
     out
 }
 
-fn check_segment_map(points: &[(i16, i16)]) -> Result<u64, (String, String)> {
+pub fn check_segment_map(points: &[(i16, i16)]) -> Result<u64, (String, String)> {
     let bytes = segment_bytes(points);
     let sm = read_fonts::tables::avar::SegmentMaps::read(FontData::new(&bytes)).map_err(|e| ("harness: SegmentMaps bytes do not parse".to_string(), format!("{e}")))?;
     let fx = |b: i16| (b as i32) << 2; // F2Dot14 bits -> 16.16 bits
@@ -378,19 +378,19 @@ pub fn normalisation(run: &Run) {
 // (d) GlyphMetrics with HVAR
 // ---------------------------------------------------------------------------
 
-const N_GLYPHS: u16 = 6;
-const N_LONG: u16 = 3;
+pub const N_GLYPHS: u16 = 6;
+pub const N_LONG: u16 = 3;
 const ADV_DELTAS: [i32; 6] = [0, 1, -1, 100, -300, 7];
 const LSB_DELTAS: [i32; 6] = [5, 0, -3, 1, 9, -1];
 
 #[derive(Clone, Copy, Debug, PartialEq)]
-enum AdvMap {
+pub enum AdvMap {
     None,
     Full,
     Truncated,
 }
 
-fn metrics_font(adv: AdvMap, lsb_map: bool) -> Vec<u8> {
+pub fn metrics_font(adv: AdvMap, lsb_map: bool) -> Vec<u8> {
     use write_fonts::tables::{hhea::Hhea, hmtx::Hmtx, hmtx::LongMetric, hvar::Hvar, maxp::Maxp};
     let region = VariationRegion::new(vec![RegionAxisCoordinates::new(F2Dot14::from_bits(0), F2Dot14::from_bits(0x4000), F2Dot14::from_bits(0x4000))]);
     // rows: advance deltas for glyph g, then lsb deltas
